@@ -1,6 +1,7 @@
 (* Proofs about Model/Tracker.v against Spec/TrackerSpec.v (C12-C15).
    Layout: 1 dictionaries  2 sorting  3 the invariant of reachable states and what each method does
-           4 C13 (expiry)  5 C12 (the map refinement)  6 C14 (top n)  7 C15 (events). *)
+           4 C13 (expiry)  6 C14 (top n)  7 C15 (events)  5 C12 (the map refinement)
+           then: facts about the specification itself, C12 + C13 in one statement, wrappers over reachable states. *)
 From Coq Require Import List Bool ZArith Lia Sorted Permutation.
 Require Import Prim.Exn Prim.IntDict Model.Tracker Spec.TrackerSpec.
 Import ListNotations.
